@@ -926,8 +926,12 @@ def signatures(rec, failing):
             groups = ["low_level_readers"]
         else:
             groups = sorted(ents)
+        outs = [st["out"] for st in rec["c"].get("steps", [])]
+        hist = ("after_refused_append" if "rejected" in outs else "after_append") if outs else None
         for g in groups:
-            if g == "read_header":
+            if hist and clause not in ("hdr_key_missing", "hdr_value", "write_rejected", "process_crashed"):
+                sig = "%s|%s|%s" % ("self_describing_readers" if g == "read_header" else g, clause, hist)
+            elif g == "read_header":
                 sig = "read_header|%s" % hdr_class(case)
             elif clause in ("hdr_key_missing", "hdr_value") or \
                     (clause == "unexpected_error" and (g in SELF_READERS or g == "self_describing_readers")):
@@ -937,10 +941,8 @@ def signatures(rec, failing):
             else:
                 noncontig = case.get("layout", "contig") not in ("contig", "zerod")
                 big = case_block(case) > 1
-                outs = [st["out"] for st in rec["c"].get("steps", [])]
-                hist = ("after_refused_append" if "rejected" in outs else "after_append") if outs else None
-                sig = "%s|%s|%s" % (g, clause, hist or ("non_contiguous_input" if noncontig else
-                                                        "table_over_2^24_bytes" if big else order_class(case)))
+                sig = "%s|%s|%s" % (g, clause, "non_contiguous_input" if noncontig else
+                                    "table_over_2^24_bytes" if big else order_class(case))
             rep = g if g in ents else (case["writer"] if case["writer"] in ents else sorted(ents)[0])
             out.append((sig, rep, clause))
     return out
